@@ -22,7 +22,12 @@ func constantBool(c *ssa.Const) bool { return constant.BoolVal(c.Value) }
 func (x *Exec) unop(instr *ssa.UnOp, v value) value {
 	switch instr.Op {
 	case token.ARROW:
-		panic(unsupported{"chan receive"})
+		et := instr.X.Type().Underlying().(*types.Chan).Elem()
+		rv, ok := x.chanRecv(v, func() value { return x.zero(et) })
+		if instr.CommaOk {
+			return tuple{rv, x.tb.Bool(ok)}
+		}
+		return rv
 	case token.SUB:
 		t := v.(*Term)
 		if t.sort.K == KFP {
@@ -281,6 +286,9 @@ func (x *Exec) equals(t types.Type, xv, yv value) *Term {
 		panic("slice comparison")
 	case *mapVal:
 		b, _ := yv.(*mapVal)
+		return tb.Bool(a == b)
+	case *chanVal:
+		b, _ := yv.(*chanVal)
 		return tb.Bool(a == b)
 	case *ssa.Function:
 		switch b := yv.(type) {
@@ -899,7 +907,8 @@ func (x *Exec) callBuiltin(caller *frame, callpos token.Pos, fn *ssa.Builtin, ar
 		return x.tb.Int(int64(n))
 
 	case "close":
-		panic(unsupported{"close"})
+		x.chanClose(args[0])
+		return nil
 
 	case "delete":
 		m := args[0].(*mapVal)
@@ -941,6 +950,11 @@ func (x *Exec) callBuiltin(caller *frame, callpos token.Pos, fn *ssa.Builtin, ar
 			}
 			x.noteReadObj(v)
 			return x.tb.Int(int64(len(v.entries)))
+		case *chanVal:
+			if v == nil {
+				return x.tb.Int(0)
+			}
+			return x.tb.Int(int64(len(v.buf)))
 		}
 		panic(unsupported{fmt.Sprintf("len of %T", args[0])})
 
@@ -952,6 +966,11 @@ func (x *Exec) callBuiltin(caller *frame, callpos token.Pos, fn *ssa.Builtin, ar
 			return x.tb.Int(int64(len((*v).(array))))
 		case sliceVal:
 			return x.tb.Int(int64(cap(v.a)))
+		case *chanVal:
+			if v == nil {
+				return x.tb.Int(0)
+			}
+			return x.tb.Int(int64(v.cap))
 		}
 		panic(unsupported{fmt.Sprintf("cap of %T", args[0])})
 
